@@ -13,7 +13,7 @@ package service
 
 //@ property C02 roots (*service).processPublish, (*service).processIncoming, (*service).processAcked, (*service).onPublish
 //@ property C12 roots (*service).publish, (*service).processIncoming, (*service).processAcked
-//@ property C09 roots (*service).processIncoming, (*service).stop, (*sessions.Session).Init, (*sessions.Session).Update
+//@ property C09 roots (*service).processIncoming, (*service).stop, (*github.com/mdzio/go-mqtt/sessions.Session).Init, (*github.com/mdzio/go-mqtt/sessions.Session).Update
 //@ property C19 roots (*service).processIncoming, (*service).receiver, (timeoutReader).Read
 //@ property C01 roots (*service).onPublish
 //@ property C17 roots (*service).writeMessage, (*stat).increment, (*buffer).WriteTo, (*buffer).ReadPeek, (*buffer).ReadCommit, (*buffer).ReadFrom
